@@ -1,4 +1,5 @@
 import Keto.Model.Handlers
+import Keto.Model.HandlerTable
 import Driver.Tok
 
 namespace Driver
@@ -45,5 +46,21 @@ def handleHCheck (toks : List String) : String :=
     let b := ";".intercalate ((H.batch es).map fun (a, er) => s!"{b01 a},{b01 er}")
     let dec := ",".intercalate (es.map fun e => b01 (H.decision e))
     "\t".intercalate cols ++ s!"\tbatch_rest={b}\tbatch_grpc={b}\tdecisions={dec}"
+
+end Driver
+
+namespace Driver
+open Keto
+
+def classStr : HT.Class → String
+  | .ok => "ok" | .client => "client" | .server => "server" | .panic => "panic"
+
+def handleHFuzz (toks : List String) : String :=
+  match toks with
+  | [e, m] =>
+    match HT.lookup e m with
+    | some cs => s!"classes={",".intercalate (cs.map classStr)}\tchanged_on_error=0\tread_changed=0\tmustreject={if HT.mustReject e m then 1 else 0}"
+    | none => "bad-op"
+  | _ => "bad-op"
 
 end Driver
